@@ -151,3 +151,146 @@ TRUSTED = []
 ASSUMPTIONS = []
 LEVEL_TEXT = "pending"
 LEVEL_NOTE = "pending"
+
+
+# ------------------------------------------------------------------ oracle
+def oracle_check(a):
+    """the property on the real code only: decode(encode(obj)) == obj for the dictionary and the
+    JSON-text route, and the stdlib encoder dumps the dictionary without a `default=` hook"""
+    u = uni_of(a)
+    obj = u.from_val(a["value"])
+    from xsdata.formats.dataclass.context import XmlContext
+    from xsdata.formats.dataclass.parsers import DictDecoder, JsonParser
+    from xsdata.formats.dataclass.serializers import DictEncoder, JsonSerializer
+    import warnings
+
+    fac = D.FACTORIES[a.get("factory", "dict")]
+    clazz = D.target_type(u, a["target"])
+    try:
+        data = DictEncoder(context=XmlContext(models_package=u.modname), dict_factory=fac).encode(obj)
+    except Exception as e:  # noqa: BLE001
+        return f"encode raised {type(e).__name__}: {e}"
+    try:
+        text = json.dumps(data)
+    except Exception as e:  # noqa: BLE001
+        return f"json.dumps(encode(obj)) raised {type(e).__name__}: {e}"
+    try:
+        D.to_j(data)
+    except D.NonNative as e:
+        return f"encoded form holds a value that is not JSON-native: {e}"
+    if json.loads(text) != json.loads(json.dumps(json.loads(text))):
+        return "json text does not reload to the same value"
+    with warnings.catch_warnings():
+        warnings.simplefilter("ignore")
+        try:
+            back = DictDecoder(context=XmlContext(models_package=u.modname)).decode(data, clazz)
+        except Exception as e:  # noqa: BLE001
+            return f"decode(encode(obj)) raised {type(e).__name__}: {str(e)[:150]}"
+        if back != obj:
+            return f"dict round trip changed the object: {back!r:.300} != {obj!r:.300}"
+        try:
+            text2 = JsonSerializer(context=XmlContext(models_package=u.modname), dict_factory=fac).render(obj)
+            back2 = JsonParser(context=XmlContext(models_package=u.modname)).from_string(text2, clazz)
+        except Exception as e:  # noqa: BLE001
+            return f"JSON text route raised {type(e).__name__}: {str(e)[:150]}"
+        if back2 != obj:
+            return f"JSON text round trip changed the object: {back2!r:.300} != {obj!r:.300}"
+    return None
+
+
+def oracle_gen(rng, tier):
+    for u, desc, ctx, obj in instances(rng, tier, n_cases(tier, 150, 3000), 5):
+        value, target = value_and_target(rng, u, obj)
+        yield {"value": value, "target": target, "factory": rng.choice(["dict", "filter_none"]), "desc": desc, "_uni": u.modname}
+
+
+def oracle_adapt(op, a):
+    if op == "dict.dec":
+        return None
+    t = a.get("target")
+    if t is None:
+        t = {"list": "Root"} if "list" in a["value"] else {"cls": "Root"}
+    return {"value": a["value"], "target": t, "factory": a.get("factory", "dict"), "desc": a["desc"], "_uni": a.get("_uni")}
+
+
+def covered(a, msg):
+    r = D.regions(uni_of(a), a["value"], a.get("factory", "dict"))
+    return sorted(r)[0] if r else None
+
+
+# ------------------------------------------------------------------ known findings (replayed on the real code)
+# the witnesses are the universes of lean/XsdataModel/Proofs/C04Witness.lean (generated from the same
+# descriptions by harness/c04_witness.py)
+import c04_witness as W  # noqa: E402
+
+
+def _rt(desc, value, factory="dict"):
+    """real dictionary round trip of a witness -> ("ok", value) | ("err", name)"""
+    u = B.Universe(desc)
+    try:
+        data = D.real_encode(u, value, factory)
+        r = D.real_decode(u, data, {"cls": value["obj"]})
+        return "ok", D.result_val(u, r), data
+    except Exception as e:  # noqa: BLE001
+        return "err", type(e).__name__, None
+    finally:
+        u.close()
+
+
+def finding_subclass():
+    """`P(c=Ch(v=1))` -> `{"c": {"v": 1}}` -> `P(c=Ch2(v=1, w=None))` when the set of candidate classes
+    yields Ch2 first: both orders are forced through bind_best_dataclass, then looked for end to end"""
+    from xsdata.formats.dataclass.context import XmlContext
+    from xsdata.formats.dataclass.parsers import DictDecoder
+
+    u = B.Universe(W.SUB_DESC)
+    try:
+        dec = DictDecoder(context=XmlContext(models_package=u.modname))
+        ch, ch2 = u.classes["Ch"], u.classes["Ch2"]
+        a = dec.bind_best_dataclass({"v": 1}, [ch, ch2])
+        b = dec.bind_best_dataclass({"v": 1}, [ch2, ch])
+        order_dependent = type(a) is ch and type(b) is ch2
+    finally:
+        u.close()
+    seen = set()
+    for _ in range(300):
+        k, v, _d = _rt(W.SUB_DESC, W.SUB_VALUE)
+        seen.add(json.dumps(v, sort_keys=True))
+        if len(seen) > 1:
+            break
+    changed = any(json.loads(s) != W.SUB_VALUE for s in seen)
+    return order_dependent and changed, f"order_dependent={order_dependent}, distinct end-to-end results over fresh class sets={len(seen)}"
+
+
+def finding_filter_none_any():
+    k, v, _ = _rt(W.ANY_DESC, W.ANY_VALUE, "filter_none")
+    k2, v2, _ = _rt(W.ANY_DESC, W.ANY_VALUE, "dict")
+    return (k, v) == ("err", "ParserError") and k2 == "ok" and v2 == W.ANY_VALUE, f"filter_none: {k} {v}; dict: {k2}"
+
+
+def finding_wrapper():
+    k, v, _ = _rt(W.WRAP_DESC, W.WRAP_VALUE)
+    return (k, v) == ("err", "ParserError"), f"{k} {v}"
+
+
+def finding_compound():
+    k, v, _ = _rt(W.COMP_DESC, W.COMP_VALUE)
+    return k == "ok" and v == W.COMP_CHANGED, f"{k} {json.dumps(v)[:200]}"
+
+
+def finding_derived():
+    k, v, _ = _rt(W.DER_DESC, W.DER_VALUE)
+    return (k, v) == ("err", "ParserError"), f"{k} {v}"
+
+
+FINDINGS = {
+    "C04-subclass-ambiguity": finding_subclass,
+    "C04-filter-none-anyelement": finding_filter_none_any,
+    "C04-wrapper-local-names": finding_wrapper,
+    "C04-compound-str-as-int": finding_compound,
+    "C04-derived-without-type": finding_derived,
+}
+
+ORACLES = [
+    Oracle("dict_json_roundtrip", oracle_gen, oracle_check, covered=covered, from_ops=("dict.roundtrip", "dict.enc"), adapt=oracle_adapt),
+]
